@@ -2,6 +2,7 @@
 """Generate sa/localnames.json: the reference local-variable naming of the tree the rules were confirmed on
 (see sa/alpha.py). Run on the pinned tree only (after a fix commit that changes locals, regenerate)."""
 import ast
+import hashlib
 import json
 import os
 import sys
@@ -18,11 +19,14 @@ for root, _d, files in os.walk(os.path.join(REPO, "optuna")):
             path = os.path.join(root, fn)
             rel = os.path.relpath(path, REPO)
             try:
-                tree = ast.parse(open(path, encoding="utf-8").read())
+                src = open(path, encoding="utf-8").read()
+                tree = ast.parse(src)
             except SyntaxError:
                 continue
             t = alpha.table_for(tree)
             if t:
+                # a module whose source is byte-identical to the reference needs no renaming at all
+                t["__digest__"] = hashlib.sha256(src.encode()).hexdigest()[:16]
                 out[rel] = t
 json.dump(out, open(os.path.join(VERIF, "sa", "localnames.json"), "w"), indent=0, sort_keys=True)
-print(len(out), "modules,", sum(len(v) for v in out.values()), "functions,", sum(len(x) for v in out.values() for x in v.values()), "locals")
+print(len(out), "modules,", sum(len(v) - 1 for v in out.values()), "functions,", sum(len(x) for v in out.values() for k, x in v.items() if k != "__digest__"), "locals")
